@@ -46,8 +46,15 @@ func buildRich(g *hgen) rich {
 	w.conds = []int{c2, c4}
 	w.sink = g.addStack(g.kind(), 0)
 	// content
-	g.emit(Op{Obj: s3, M: "Push", Args: []Val{g.uv(), g.uv()}}, true)
-	g.emit(Op{Obj: s1, M: "Push", Args: []Val{g.uv(), vRef(c4, 0), g.plain()}}, true)
+	hole := func(vs ...Val) []Val {
+		if r.Bool(0.3) {
+			k := r.Intn(len(vs) + 1)
+			vs = append(vs[:k:k], append([]Val{vNil()}, vs[k:]...)...)
+		}
+		return vs
+	}
+	g.emit(Op{Obj: s3, M: "Push", Args: hole(g.uv(), g.uv())}, true)
+	g.emit(Op{Obj: s1, M: "Push", Args: hole(g.uv(), vRef(c4, 0), g.plain())}, true)
 	op := Op{Obj: s0, M: "Push"}
 	for k := r.Range(1, 4); k > 0; k-- {
 		switch r.Intn(5) {
